@@ -757,6 +757,7 @@ func (r *runner) remoteSend(e event) {
 	tag := tagRemote | uint64(idx+1)
 	magic := r.net.magic
 	var b []byte
+	oldStylePing := false
 	switch s.K {
 	case rVersion:
 		nonce := uint64(0x1111111100000000) | uint64(idx+1)
@@ -794,6 +795,12 @@ func (r *runner) remoteSend(e event) {
 		b = frame(magic, s.Cmd, make([]byte, []int{0, 8, 100}[s.Variant]))
 	case rApp:
 		b = frame(magic, akindCmd[s.App], r.appPayload(s.App, tag))
+		if s.App == aPing && r.mdl.negotiated <= pverBIP31 {
+			// the ping of a remote that speaks the negotiated (pre-BIP31) version has no nonce
+			b = frame(magic, "ping", nil)
+			oldStylePing = true
+			r.setFeat("nonce-less-ping")
+		}
 	case rWrongNet:
 		b = frame(r.otherMagic(s.Variant), akindCmd[s.App], r.appPayload(s.App, tag))
 	case rMalformed:
@@ -821,7 +828,7 @@ func (r *runner) remoteSend(e event) {
 		b = frameRaw(magic, cmd, nil, ln, []byte{0, 0, 0, 0})
 	}
 	minPver := uint32(0)
-	if s.K == rApp {
+	if s.K == rApp && !oldStylePing {
 		minPver = akindMinPver[s.App]
 	}
 	before := r.mdl.state
